@@ -161,6 +161,7 @@ type runOut struct {
 	panicked string
 	nops     int
 	lineOp   []int // spec-mode line index -> index of the executed op it belongs to
+	cutOp    int   // first op that builds on a discarded root (-1: none): not comparable across backends
 }
 
 type backendRun struct {
@@ -332,6 +333,10 @@ func (b *backendRun) doCommit(w []string) (skip bool, opLines []string) {
 		// manufacture such histories.
 		if s.v < v && s.v > b.last {
 			return true, nil
+		}
+		// Building on a discarded root: whether it still exists is the backend's choice.
+		if s.v <= b.last && !b.fin[fmt.Sprintf("%d:%d:%d", s.v, s.t, s.id)] && b.out.cutOp < 0 {
+			b.out.cutOp = b.out.nops
 		}
 	}
 	want, seq := applyWrites(srcCont, writes)
@@ -514,7 +519,7 @@ func (b *backendRun) doPrune(w []string) (bool, []string) {
 
 // runBackend executes the case on one real backend.
 func runBackend(kind string, ops []string, ht *hashTable, withNodeLog bool) *runOut {
-	out := &runOut{lines: []string{"mode spec"}, blines: []string{"mode badger"}}
+	out := &runOut{lines: []string{"mode spec"}, blines: []string{"mode badger"}, cutOp: -1}
 	dir, err := os.MkdirTemp(scratch(), "dbdrv-"+kind+"-")
 	if err != nil {
 		out.panicked = "mkdtemp: " + err.Error()
@@ -598,11 +603,36 @@ func sigOf(backend, ans string) string {
 
 var backends = []string{"badger", "pathbadger"}
 
+// checkFor re-runs only what is needed to reproduce a failure of the given signature.
+func checkFor(ops []string, sig string) bool {
+	only := ""
+	switch {
+	case strings.HasPrefix(sig, "badger:"), strings.HasPrefix(sig, "badger-model:"):
+		only = "badger"
+	case strings.HasPrefix(sig, "pathbadger:"):
+		only = "pathbadger"
+	}
+	for _, x := range checkOnly(ops, nil, false, only) {
+		if x.sig == sig {
+			return true
+		}
+	}
+	return false
+}
+
 func check(ops []string, res *hlib.Result, count bool) []verdict {
+	return checkOnly(ops, res, count, "")
+}
+
+func checkOnly(ops []string, res *hlib.Result, count bool, only string) []verdict {
 	ht := &hashTable{ids: map[hash.Hash]int{}}
 	var vs []verdict
 	outs := map[string]*runOut{}
 	for _, k := range backends {
+		if only != "" && only != k {
+			outs[k] = &runOut{restrict: true, cutOp: -1}
+			continue
+		}
 		outs[k] = runBackend(k, ops, ht, k == "badger")
 	}
 	// 1. the badger bookkeeping model as an exact oracle of the badger backend; its notes name
@@ -638,6 +668,9 @@ func check(ops []string, res *hlib.Result, count bool) []verdict {
 	firstBadOp := len(ops) + 1
 	for _, k := range backends {
 		o := outs[k]
+		if only != "" && only != k {
+			continue
+		}
 		if o.panicked != "" {
 			vs = append(vs, verdict{"panic", k + ":panic", o.panicked})
 		}
@@ -646,12 +679,16 @@ func check(ops []string, res *hlib.Result, count bool) []verdict {
 			vs = append(vs, verdict{"divergence", k + ":model-error", err.Error()})
 			continue
 		}
-		if i := hlib.FirstBad(ans, "ok"); i >= 0 {
+		seenSig := map[string]bool{}
+		for i, a := range ans {
+			if strings.HasPrefix(a, "ok") || a == "skip" {
+				continue
+			}
 			kind := "divergence"
-			if strings.Contains(ans[i], "unreadable") || strings.Contains(ans[i], "foreign-contents") || strings.Contains(ans[i], "finalized-root-missing") {
+			if strings.Contains(a, "unreadable") || strings.Contains(a, "foreign-contents") || strings.Contains(a, "finalized-root-missing") {
 				kind = "spec"
 			}
-			sig := sigOf(k, ans[i])
+			sig := sigOf(k, a)
 			if k == "badger" {
 				f := strings.Fields(o.lines[i])
 				var key string
@@ -665,10 +702,14 @@ func check(ops []string, res *hlib.Result, count bool) []verdict {
 					sig += ":" + n
 				}
 			}
-			vs = append(vs, verdict{kind, sig, fmt.Sprintf("%s at line %d `%s`: %s", k, i, o.lines[i], ans[i])})
 			if i < len(o.lineOp) && o.lineOp[i] < firstBadOp {
 				firstBadOp = o.lineOp[i]
 			}
+			if seenSig[sig] {
+				continue
+			}
+			seenSig[sig] = true
+			vs = append(vs, verdict{kind, sig, fmt.Sprintf("%s at line %d `%s`: %s", k, i, o.lines[i], a)})
 		}
 		if count && res != nil {
 			for _, l := range o.lines {
@@ -706,6 +747,11 @@ func check(ops []string, res *hlib.Result, count bool) []verdict {
 		}
 		if firstBadOp < n {
 			n = firstBadOp
+		}
+		for _, o := range []*runOut{a, p} {
+			if o.cutOp >= 0 && o.cutOp < n {
+				n = o.cutOp
+			}
 		}
 	outer:
 		for i := 0; i < n; i++ {
@@ -759,7 +805,7 @@ func genCase(r *hlib.Rng, nver int, res *hlib.Result) []string {
 			case k < 8:
 				src = "-" // fresh tree (re-creates nodes)
 				res.Count("gen:fresh-state-candidate")
-			case k < 16 && len(cands) > 0:
+			case k < 13 && len(cands) > 0:
 				src = cands[r.Intn(len(cands))] // same-version chain
 				res.Count("gen:same-version-chain")
 			}
@@ -825,7 +871,7 @@ func genCase(r *hlib.Rng, nver int, res *hlib.Result) []string {
 		var ios []string
 		for c := 0; c < nio; c++ {
 			src := "-"
-			if len(ios) > 0 && r.Chance(1, 3) {
+			if len(ios) > 0 && r.Chance(1, 6) {
 				src = ios[len(ios)-1] // empty -> i -> io chain inside one version
 				res.Count("gen:io-chain")
 			}
@@ -834,7 +880,12 @@ func genCase(r *hlib.Rng, nver int, res *hlib.Result) []string {
 				base = cont[src]
 			}
 			var ws []string
-			for j := r.Intn(3); j > 0; j-- {
+			nw := 1 + r.Intn(3)
+			if r.Chance(1, 8) {
+				nw = 0 // empty io root
+				res.Count("gen:empty-io-root")
+			}
+			for j := nw; j > 0; j-- {
 				ws = append(ws, keys[r.Intn(len(keys))]+"="+vals[r.Intn(len(vals))])
 			}
 			wl := "-"
@@ -1021,14 +1072,7 @@ func main() {
 			if sigs[v.sig] > 1 {
 				continue
 			}
-			min := hlib.Shrink(ops, func(c []string) bool {
-				for _, x := range check(c, nil, false) {
-					if x.sig == v.sig {
-						return true
-					}
-				}
-				return false
-			})
+			min := hlib.Shrink(ops, func(c []string) bool { return checkFor(c, v.sig) })
 			detail := v.detail
 			for _, x := range check(min, nil, false) {
 				if x.sig == v.sig {
